@@ -352,6 +352,14 @@ class Builder:
             ev.env[n] = t
         return ev.expr(node.body)
 
+    def apply_callable(self, f, args):
+        """the value of a callable term (lambda, nested def) applied to argument terms - what groupby(..).apply(f) computes per group"""
+        if f[0] == "lambda":
+            return self.lambda_apply(f, args)
+        if f[0] == "closure":
+            return self.closure_summary(f, args).ret()
+        return None
+
     def closure_summary(self, clo_term, args):
         fi, env, self_cls = self.closures[clo_term[1]]
         ev = _Eval(self, fi, dict(zip(fi.params, args)), dict(env), 0, self_cls)
@@ -690,6 +698,13 @@ class _Eval:
             self.env[tgt.id] = v
             self.sum.assigns.append((self.pc, tgt.id, v, st))
         elif isinstance(tgt, (ast.Tuple, ast.List)):
+            if tgt.elts and isinstance(tgt.elts[-1], ast.Starred) and not any(isinstance(e, ast.Starred) for e in tgt.elts[:-1]):
+                # a, b, *rest = x: the leading names are x[0], x[1] (whatever the rest is)
+                for i, e in enumerate(tgt.elts[:-1]):
+                    nt = self._namedtuple_index(v, i)
+                    self.store(e, I(nt if nt is not None else index(v, ("const", i))), st)
+                self.store(tgt.elts[-1].value, ("unknown", "starred-rest"), st)
+                return
             if v[0] in ("tuple", "list") and len(v[1]) == len(tgt.elts) and not any(
                 isinstance(e, ast.Starred) for e in tgt.elts
             ):
